@@ -545,6 +545,59 @@ func (d *dataset) genArea(rng *rand.Rand) area {
 	}
 }
 
+// hasZeroLengthLineSegment reports a LineString / MultiLineString anywhere in the
+// GeoJSON text with two equal consecutive positions.
+func hasZeroLengthLineSegment(js string) bool {
+	var v any
+	if err := json.Unmarshal([]byte(js), &v); err != nil {
+		return false
+	}
+	dupLine := func(c any) bool {
+		arr, _ := c.([]any)
+		for i := 1; i < len(arr); i++ {
+			a, _ := arr[i-1].([]any)
+			b, _ := arr[i].([]any)
+			if len(a) >= 2 && len(b) >= 2 && a[0] == b[0] && a[1] == b[1] {
+				return true
+			}
+		}
+		return false
+	}
+	var walk func(x any) bool
+	walk = func(x any) bool {
+		switch t := x.(type) {
+		case map[string]any:
+			switch t["type"] {
+			case "LineString":
+				if dupLine(t["coordinates"]) {
+					return true
+				}
+			case "MultiLineString":
+				if arr, ok := t["coordinates"].([]any); ok {
+					for _, l := range arr {
+						if dupLine(l) {
+							return true
+						}
+					}
+				}
+			}
+			for _, c := range t {
+				if walk(c) {
+					return true
+				}
+			}
+		case []any:
+			for _, c := range t {
+				if walk(c) {
+					return true
+				}
+			}
+		}
+		return false
+	}
+	return walk(v)
+}
+
 func bucket(n int) string {
 	switch {
 	case n == 0:
@@ -652,6 +705,14 @@ func (w *worker) runDataset(idx int) {
 				}
 				if cr.Kind != '*' || len(cr.Arr) != 2 || cr.Arr[0].Int != 1 {
 					ctx.Count("clipby_area_disjoint_or_rejected", 1)
+					continue
+				}
+				if strings.Contains(cr.Arr[1].Str, "LineString") || hasZeroLengthLineSegment(cr.Arr[1].Str) {
+					// a clipped line shares whole segments with the stored line it came from and then
+					// leaves it at a vertex (and may repeat a vertex): tile38's line-in-line test
+					// (geometry.Line.ContainsLine) spins forever on such a pair, for TEST as well as for
+					// the search, and the server wedges (separate finding) - not usable as an area here
+					ctx.Count("clipby_skipped_line_area", 1)
 					continue
 				}
 				found = true
@@ -837,6 +898,7 @@ func Run(ctx *core.Ctx) {
 		"SECTOR/CIRCLE arguments finite (non-finite SECTOR arguments wedge the server: separate finding D14); WITHIN key GEO not used (D13)",
 		"the oracle is tile38's own index-free predicate, as the property is stated: the geometry predicates themselves are not judged",
 		"a CLIPBY query whose area TEST reports as disjoint from the clip rectangle is skipped (no index-free clipped area exists)",
+		"generated lines never repeat a consecutive vertex and CLIPBY is not applied to areas containing lines: geometry.Line.ContainsLine loops forever when the inner line follows a segment of the outer one and leaves it at a vertex, or when the outer line has a zero-length segment (TEST and search alike; separate finding, the server wedges)",
 		"i/o errors, timeouts and server deaths are inconclusive here, not violations of C02",
 	}
 	ctx.MinDistinct = 20
